@@ -135,6 +135,7 @@ struct Quot {
             using P = decltype(std::declval<LRep>() / std::declval<RRep>());
             if (!is_signed_int_v<P> && (za < 0 || zb < 0)) cause = "negative-operand-unsigned-natural-result/";
         }
+        if (!cause.empty()) o.region = "quotient/" + cause;
         if (!ok) {
             o.fclass = "quotient/" + cause + o.fclass;
             return;
